@@ -728,13 +728,15 @@ class DAGRunConcurrentManager(DAGRunManagerLike):
                 # will be executed again and the function will unlock the descendants in the other branch.
                 to_unlock_descendants = False
 
-            logger.debug('Save the result "%s" for the node %s', result, node_id)
-            self._node_storage.set_node_result(node_id, result)
-
             # TODO: Needs to reorganize saving policy for artifact storage
             # A request for the next iteration and an error contained by OneOf are not results of the node
             if not isinstance(result, (Recurrent, BaseException)):
+                # The artifact is stored before the result becomes visible: `run` returns (and cancels every task)
+                # as soon as the output node has a result, a save that is still in flight would be lost.
                 await self.ctx.save_node_result(node_id, result)
+
+            logger.debug('Save the result "%s" for the node %s', result, node_id)
+            self._node_storage.set_node_result(node_id, result)
 
         finally:
             if not to_unlock_descendants:
